@@ -9,7 +9,6 @@ Local Open Scope string_scope.
 Definition observed_sites : list (string * string * string * string) :=
   [("goag/specification", "GetSecurity", "sr : SecurityRequirement", "13ea5fd1");
    ("goag/specification", "NewComponents", "spec.Parameters : ParametersMap", "cebb0345");
-   ("goag/specification", "NewSchema", "schema.Discriminator.Mapping : map[string]string", "7508f16d");
    ("goag/specification", "NewSchema", "required : map[string]struct{}", "9d46b06c");
    ("goag/specification", "NewSchema", "schema.ExtensionProps.Extensions : map[string]interface{}", "f159cebc");
    ("goag/specification", "NewSecurityRequirements", "sr : SecurityRequirement", "90c28e7b");
